@@ -37,4 +37,5 @@ MUTANTS = [
            lambda seg: 'line.startswith(name)'), 'K7', 'prefix match of the record key'),
     Mutant('sorted_log_keys', 'src/pharmpy/workflows/log.py', edit_node('Log.from_dict', lambda n, seg: isinstance(n, ast.Call) and seg == 'd.values()',
            lambda seg: '[d[k] for k in sorted(d)]'), 'K8', 'lexicographic key order'),
+    Mutant('snapshot_self_name', 'src/pharmpy/workflows/model_database/local_directory.py', edit_node('LocalModelDirectoryDatabaseSnapshot.retrieve_file', lambda n, seg: isinstance(n, ast.Attribute) and seg == 'self.key', lambda seg: 'self.name', -1), 'Y0', 'attribute a snapshot does not have (regression of ffb73dc)'),
 ]
